@@ -214,6 +214,7 @@ def tid_of(out):
 
 
 def run_scripts(ctx, scripts, tag):
+    ctx.vh_keep = getattr(ctx, "vh_keep", None) or ["writer.go", "conn.go"]
     sp = os.path.join(ctx.work, "wscripts-%s.ndjson" % tag)
     tp = os.path.join(ctx.work, "wtraces-%s.ndjson" % tag)
     write_ndjson(sp, scripts)
